@@ -116,6 +116,7 @@ type run struct {
 	switches   []switchEv
 	hooks      map[string]value
 	maxPreempt int
+	mapRangeMode int
 }
 
 func (r *run) noteFn(fn *ssa.Function) {
